@@ -111,7 +111,7 @@ func checkC02With(p *cparsers.ExpressionParser, c c02Case) *evid.Fail {
 	{
 		verdicts := map[string]error{}
 		if g := guard(func() {
-			p2 := cparsers.NewExpressionParser()
+			p2 := p // the parser that has just parsed this input twice (building another one costs as much as ten parses)
 			var calc *calculator.ExpressionCalculator
 			if len(src)%3 == 0 { // a calculator is costly to build: a third of the inputs go through it
 				calc = calculator.NewExpressionCalculator()
